@@ -7,7 +7,7 @@ CLAIMED = {
                 note='Assumes the SQL/FS/clock models (validated differentially against sqlite3 each run), integer-valued times, page-size cut; iteration not interleaved with mutation; tag_index DDL ignored.'),
     'C04': dict(design='§4 C04', text='Expiry clauses of the same step obligations: an item with now > expire_time is never returned, revived, incremented, touched, popped or deleted as live, one with now < expire_time or no expiry always is (the tie now == expire_time is left free); expire(now) removes exactly the rows with expire_time < now for PAGE in {1,2,3} incl. shared expiry times and non-positive expiry times; lazy cull removes only expired rows within cull_limit; decided by z3 over all clock readings/ttl within the row bound. Stored expiry times of any sign, zero included, for every lookup and queue read.',
                 note='Same trusted base as C03; the tie instant is unspecified by the statement and accepted either way.'),
-    'C08': dict(design='§4 C08', text='Inv(post) asserted after every single-client step obligation: Settings.count/size equal the rows, every file-backed row names a distinct complete file of the recorded size, no unreferenced *.val file; trigger arithmetic interpreted from the DDL the real __init__ issues. Calls rejected for an invalid argument (unknown queue side, non-numeric expiry, non-string prefix, a value without read()) change nothing and leave no file (found and repaired: push with an unknown side).',
+    'C08': dict(design='§4 C08', text='Inv(post) asserted after every single-client step obligation: Settings.count/size equal the rows, every file-backed row names a distinct complete file of the recorded size, no unreferenced *.val file; trigger arithmetic interpreted from the DDL the real __init__ issues. Calls rejected for an invalid argument (unknown queue side, non-numeric expiry, non-string prefix, a value without read()) change nothing and leave no file (found and repaired: push with an unknown side). One injected failure inside an operation of a transact() block whose caller handles it and commits (found and repaired: the failed write\'s file stayed behind; a failed replace removed the old file).',
                 note='Failure/timeout/concurrency histories are added by the fault, lock and interference obligations as they land; empty directories are not tracked for symbolically named files (harmless by the statement).'),
     'C09': dict(design='§4 C09', text='Eviction clauses over symbolic store/access times, counts, sizes, cull_limit, size_limit and page_count: victims of a write only if volume >= size_limit, expired first, policy order (ties free), at most cull_limit, none under policy none; get/incr refresh recency/frequency metadata; cull() removes all expired rows, evicts in policy order only above the limit, stops only at/below the limit or when empty and returns the number removed (BATCH in {1,2}).',
                 note='Same trusted base as C03; page_count is an arbitrary integer >= 1 on every read.'),
